@@ -238,6 +238,42 @@ def r05_2(run):
                                slot='input-after-consume:%s:%s' % (name, m),
                                message='%s calls %s before removing the reply from the buffer (the reply bytes would be relayed as data)' % (name, m))
     run.floor('R05.2', 'buffer consumption sites', k, 4)
+    # A buffer-length test may only separate "not all here yet: wait" from "go on": how much is buffered depends
+    # on how the peer's bytes were cut into segments (and on application bytes following the reply), so a test
+    # whose short leg also acts makes the outcome depend on the segmentation.
+    kt = 0
+    for name, u in ci.methods.items():
+        if not name.startswith('_parse_'):
+            continue
+        g = cfg_of(u)
+        for tn in g.live:
+            if tn.kind != 'test':
+                continue
+            lg = _len_guard(tn.ast)
+            if lg is None:
+                continue
+            op, bound = lg
+            if isinstance(op, (ast.Lt, ast.LtE)):
+                short = 'T'
+            elif isinstance(op, (ast.Gt, ast.GtE)):
+                short = 'F'
+            else:
+                run.ob('R05.2', u, tn.ast, 'buffer-length test understood', None, message='%s: length test %s is neither < nor >=' % (name, src(tn.ast)))
+                continue
+            kt += 1
+            starts = [s_ for lab, s_ in tn.succ if lab == short]
+            acts = []
+            for n in g.reachable(starts, follow_exc=False):
+                if n.kind in ('exit', 'join', 'entry'):
+                    continue
+                if n.kind == 'stmt' and (isinstance(n.ast, (ast.Return, ast.Pass)) or is_noise(n.ast)):
+                    continue
+                acts.append(n)
+            run.ob('R05.2', u, tn.ast, 'the short leg of a buffer-length test only waits for more bytes', not acts, slot='len-test-short-leg:%s' % name,
+                   message='%s: when %s is %s the parser still acts (%s): whether the attempt succeeds then depends on how many bytes '
+                           'happen to be buffered, i.e. on the segmentation' % (name, src(tn.ast), 'true' if short == 'T' else 'false',
+                                                                              src(acts[0].ast)[:50] if acts else ''))
+    run.floor('R05.2', 'buffer-length tests', kt, 4)
 
 
 def self_calls_unit(u):
@@ -500,6 +536,7 @@ RULES = [
 from ..selftest import M  # noqa: E402
 F = 'txtorcon/socks.py'
 MUTANTS = [
+    M('reply-length-cap', F, "        if len(self._data) < 8:\n            return\n        msg = self._data[:4]", "        if len(self._data) < 8:\n            return\n        if len(self._data) > 262:\n            self.reply_error(SocksError('too long'))\n            return\n        msg = self._data[:4]", ['R05.2']),
     M('relay-in-sent_request', F, "    sent_request.upon(\n        got_data,\n        enter=sent_request,\n        outputs=[_parse_request_reply],\n    )", "    sent_request.upon(\n        got_data,\n        enter=sent_request,\n        outputs=[_parse_request_reply, _relay_data],\n    )", ['R05.1']),
     M('make-connection-on-error', F, "    sent_request.upon(\n        reply_error,\n        enter=abort,\n        outputs=[_disconnect],\n    )", "    sent_request.upon(\n        reply_error,\n        enter=relaying,\n        outputs=[_make_connection],\n    )", ['R05.1']),
     M('no-flush-on-enter', F, "        self._when_done.fire(sender)\n        # anything that arrived in the same segment as the reply\n        # already belongs to the application\n        self._relay_pending()\n", "        self._when_done.fire(sender)\n", ['R05.1']),
@@ -521,6 +558,7 @@ MUTANTS = [
     M('relay-drops-first-byte', F, "            d = self._data\n            self._data = b''\n", "            d = self._data[1:]\n            self._data = b''\n", ['R05.7']),
 ]
 TWINS = [
+    M('len-le-7', F, "        if len(self._data) < 8:\n            return\n        msg = self._data[:4]", "        if len(self._data) <= 7:\n            return\n        msg = self._data[:4]"),
     M('early-return-len', F, "        if len(self._data) >= 22:\n            addr = self._data[4:20]\n            port = struct.unpack('H', self._data[20:22])[0]\n            self._data = self._data[22:]\n            if self._req_type == 'CONNECT':\n                self.reply_ipv6(addr, port)\n            else:\n                self.reply_domain_name(inet_ntop(AF_INET6, addr))",
       "        if len(self._data) < 22:\n            return\n        addr = self._data[4:20]\n        port = struct.unpack('H', self._data[20:22])[0]\n        self._data = self._data[22:]\n        if self._req_type != 'CONNECT':\n            self.reply_domain_name(inet_ntop(AF_INET6, addr))\n        else:\n            self.reply_ipv6(addr, port)"),
     M('reorder-rows', F, "    sent_request.upon(\n        reply_ipv4,\n        enter=relaying,\n        outputs=[_make_connection],\n    )\n    sent_request.upon(\n        reply_ipv6,\n        enter=relaying,\n        outputs=[_make_connection],\n    )", "    sent_request.upon(\n        reply_ipv6,\n        enter=relaying,\n        outputs=[_make_connection],\n    )\n    sent_request.upon(\n        reply_ipv4,\n        enter=relaying,\n        outputs=[_make_connection],\n    )"),
